@@ -197,4 +197,127 @@ theorem mem_list1 {α} (p : SP α) (n : Nat) (xs : List α) (ts r : List STok) :
 theorem mem_list0 {α} (p : SP α) (n : Nat) (xs : List α) (ts r : List STok) :
     (xs, r) ∈ list0 p n ts ↔ (SepBy p comma xs ts r ∧ xs.length ≤ n + 1) ∨ (xs = [] ∧ r = ts) := by
   simp [list0, mem_list1]
+
+theorem abs_of_peekTok_lit {st : PState} {k : Token} (hk : isLit k = true) (h : peekTok st = some k) :
+    abs st = litTok k :: abs (adv st) := by
+  rw [abs_of_peekTok h, absTok_of_tok? hk (toks_of_peekTok h).2]
+
+section Delimited
+variable {α β : Type} (stop : Token) (peeks : List Token) (item : PState → PR α) (er : α → β) (p : SP β)
+
+theorem parseDelimited_commas_sound (B : Nat)
+    (hitem : ∀ st x st1, item st = .ok (x, st1) → Suf st1 st ∧ st1.toks.length < st.toks.length ∧
+        (st.toks.length ≤ st1.toks.length + B → (er x, abs st1) ∈ p (abs st)))
+    (fuel : Nat) (st : PState) (xs : List α) (st' : PState)
+    (h : parseDelimited stop true peeks item fuel st = .ok (xs, st')) :
+    Suf st' st ∧ peekTok st' = some stop ∧ xs.length + st'.toks.length ≤ st.toks.length ∧
+    (st.toks.length ≤ st'.toks.length + B →
+       (xs = [] ∧ st' = st) ∨ SepBy p comma (xs.map er) (abs st) (abs st')) := by
+  induction fuel generalizing st xs st' with
+  | zero => simp [parseDelimited] at h
+  | succ fuel ih =>
+    simp only [parseDelimited] at h
+    split at h
+    · rename_i hs
+      cases h
+      exact ⟨Suf.refl _, by simpa using hs, by simp, fun _ => .inl ⟨rfl, rfl⟩⟩
+    · split at h
+      · cases h
+      · split at h
+        · cases h
+        · rename_i x st1 hx
+          obtain ⟨hs1, hl1, hm1⟩ := hitem _ _ _ hx
+          split at h
+          · rename_i next hn
+            split at h
+            · rename_i hstop
+              cases h
+              subst hstop
+              refine ⟨hs1, hn, by simp; omega, fun hB => .inr (.one (hm1 hB))⟩
+            · simp only [if_true] at h
+              split at h
+              · cases h
+              · rename_i tk st2 htk
+                rw [parseToken_eq_ok] at htk
+                obtain ⟨hc, _, rfl⟩ := htk
+                split at h
+                · cases h
+                · rename_i xs' st'' hrec
+                  cases h
+                  obtain ⟨hs2, hp2, hl2, hm2⟩ := ih _ _ _ hrec
+                  have hlen := len_of_peekTok hc
+                  have habs := abs_of_peekTok_lit (k := .Comma) rfl hc
+                  rw [← comma_eq] at habs
+                  refine ⟨hs2.trans ((Suf.adv _).trans hs1), hp2, by simp; omega, fun hB => .inr ?_⟩
+                  have hB1 : st.toks.length ≤ st1.toks.length + B := by
+                    have := hs2.len; omega
+                  have hB2 : (adv st1).toks.length ≤ st'.toks.length + B := by omega
+                  have hx' := hm1 hB1
+                  rw [habs] at hx'
+                  rcases hm2 hB2 with ⟨rfl, rfl⟩ | hsep
+                  · exact .oneTrail hx'
+                  · exact .cons hx' hsep
+          · cases h
+
+theorem abs_adv_of_cons {st : PState} {k : Token} {r : List STok} (hk : isLit k = true)
+    (h : abs st = litTok k :: r) : peekTok st = some k ∧ abs (adv st) = r := by
+  have hp : peekTok st = some k := (head_abs_lit hk st).mp (by rw [h]; rfl)
+  have := abs_of_peekTok_lit hk hp
+  rw [this] at h
+  exact ⟨hp, (List.cons.inj h).2⟩
+
+theorem parseDelimited_commas_complete (hstop : isLit stop = true) (hne : stop ≠ .Comma)
+    (hitem : ∀ st a r1, (a, r1) ∈ p (abs st) →
+        (r1.head? = some comma ∨ r1.head? = some (litTok stop)) →
+        ∃ x st1, item st = .ok (x, st1) ∧ er x = a ∧ abs st1 = r1 ∧
+          st1.toks.length < st.toks.length ∧ peekIn st peeks = true ∧ peekTok st ≠ some stop)
+    {xs : List β} {ts r : List STok} (h : SepBy p comma xs ts r)
+    (st : PState) (hts : ts = abs st) (hr : r.head? = some (litTok stop)) (fuel : Nat)
+    (hfuel : xs.length + 1 ≤ fuel ∨ st.toks.length + 1 ≤ fuel) :
+    ∃ ys st', parseDelimited stop true peeks item fuel st = .ok (ys, st') ∧ ys.map er = xs ∧
+      abs st' = r := by
+  induction h generalizing st fuel with
+  | one h1 =>
+    subst hts
+    obtain ⟨x, st1, hx, rfl, rfl, hl, hin, hns⟩ := hitem _ _ _ h1 (.inr hr)
+    have hp1 : peekTok st1 = some stop := (head_abs_lit hstop st1).mp hr
+    obtain ⟨f, rfl⟩ : ∃ f, fuel = f + 1 := ⟨fuel - 1, by omega⟩
+    refine ⟨[x], st1, ?_, rfl, rfl⟩
+    have hnis : peekIs st stop = false := (peekIs_false_iff _ _).mpr hns
+    simp [parseDelimited, hnis, hin, hx, hp1]
+  | oneTrail h1 =>
+    subst hts
+    obtain ⟨x, st1, hx, rfl, habs, hl, hin, hns⟩ := hitem _ _ _ h1 (.inl rfl)
+    rw [comma_eq] at habs
+    obtain ⟨hp1, habs2⟩ := abs_adv_of_cons (k := .Comma) rfl habs
+    have hp2 : peekTok (adv st1) = some stop := (head_abs_lit hstop _).mp (by rw [habs2]; exact hr)
+    have hl1 := len_of_peekTok hp1
+    obtain ⟨f, rfl⟩ : ∃ f, fuel = f + 2 := ⟨fuel - 2, by simp at hfuel; omega⟩
+    refine ⟨[x], adv st1, ?_, rfl, habs2⟩
+    have hnis : peekIs st stop = false := (peekIs_false_iff _ _).mpr hns
+    have hpt : parseToken st1 .Comma = .ok (tokAt st1, adv st1) := parseToken_eq_ok.mpr ⟨hp1, rfl, rfl⟩
+    have hne' : ¬ Token.Comma = stop := fun h => hne h.symm
+    have his2 : peekIs (adv st1) stop = true := (peekIs_iff _ _).mpr hp2
+    simp [parseDelimited, hnis, hin, hx, hp1, hne', hpt, his2]
+  | cons h1 _ ih =>
+    subst hts
+    obtain ⟨x, st1, hx, rfl, habs, hl, hin, hns⟩ := hitem _ _ _ h1 (.inl rfl)
+    rw [comma_eq] at habs
+    obtain ⟨hp1, habs2⟩ := abs_adv_of_cons (k := .Comma) rfl habs
+    have hl1 := len_of_peekTok hp1
+    obtain ⟨f, rfl⟩ : ∃ f, fuel = f + 1 := ⟨fuel - 1, by omega⟩
+    obtain ⟨ys, st', hrec, hys, hst'⟩ := ih (adv st1) habs2.symm hr f (by simp at hfuel; omega)
+    refine ⟨x :: ys, st', ?_, by simp [hys], hst'⟩
+    have hnis : peekIs st stop = false := (peekIs_false_iff _ _).mpr hns
+    have hpt : parseToken st1 .Comma = .ok (tokAt st1, adv st1) := parseToken_eq_ok.mpr ⟨hp1, rfl, rfl⟩
+    have hne' : ¬ Token.Comma = stop := fun h => hne h.symm
+    simp [parseDelimited, hnis, hin, hx, hp1, hne', hpt, hrec]
+
+/-- the empty list: `stop` right away -/
+theorem parseDelimited_nil (withCommas : Bool) (st : PState) (fuel : Nat) (h : peekTok st = some stop) :
+    parseDelimited stop withCommas peeks item (fuel + 1) st = .ok ([], st) := by
+  have : peekIs st stop = true := (peekIs_iff _ _).mpr h
+  simp [parseDelimited, this]
+end Delimited
+
 end Wac.C12
